@@ -228,6 +228,20 @@ fn uf_verify(pk: &[u8; 32], msg: &[u8], sig: &[u8; 64]) -> bool {
     }
 }
 
+/// compressed encoding of the identity point (0, 1)
+pub const IDENTITY_POINT: [u8; 32] = [1, 0, 0, 0, 0, 0, 0, 0, 0, 0, 0, 0, 0, 0, 0, 0, 0, 0, 0, 0, 0, 0, 0, 0, 0, 0, 0, 0, 0, 0, 0, 0];
+pub fn is_identity(b: &[u8; 32]) -> bool {
+    let w: [u128; 2] = unsafe { core::mem::transmute(*b) };
+    let i: [u128; 2] = unsafe { core::mem::transmute(IDENTITY_POINT) };
+    w[0] == i[0] && w[1] == i[1]
+}
+/// public key = identity, R = identity, S = 0
+pub fn weak_triple(pk: &[u8; 32], sig: &[u8; 64]) -> bool {
+    let w: [u128; 4] = unsafe { core::mem::transmute(*sig) };
+    let i: [u128; 2] = unsafe { core::mem::transmute(IDENTITY_POINT) };
+    is_identity(pk) && w[0] == i[0] && w[1] == i[1] && w[2] == 0 && w[3] == 0
+}
+
 fn parse_point(bytes: &[u8; 32]) -> bool {
     unsafe {
         let l = &mut *core::ptr::addr_of_mut!(LOG);
@@ -249,8 +263,22 @@ fn fresh_sig(_seed: &[u8; 32], _msg: &[u8]) -> [u8; 64] {
     kani::any()
 }
 #[cfg(kani)]
-fn fresh_verdict(_pk: &[u8; 32], _msg: &[u8], _sig: &[u8; 64]) -> bool {
+fn fresh_verdict(pk: &[u8; 32], _msg: &[u8], sig: &[u8; 64]) -> bool {
+    // a fact of RFC 8032 (cofactored or not) verification the weak-key harness relies on: under the
+    // identity point as public key, the signature (R = identity, S = 0) verifies for every message
+    // ([0]B = identity = R + [k]identity)
+    if weak_triple(pk, sig) {
+        return true;
+    }
     kani::any()
+}
+#[cfg(kani)]
+fn strict_ok(pk: &[u8; 32], _msg: &[u8], sig: &[u8; 64]) -> bool {
+    // verify_strict additionally rejects small-order A and R; the model knows one such encoding
+    // (the identity) -- an under-approximation of what strict verification rejects
+    let mut r = [0u8; 32];
+    r.copy_from_slice(&sig[..32]);
+    !(is_identity(pk) || is_identity(&r))
 }
 #[cfg(kani)]
 fn point_ok(_b: &[u8; 32]) -> bool {
@@ -276,6 +304,13 @@ fn fresh_verdict(pk: &[u8; 32], msg: &[u8], sig: &[u8; 64]) -> bool {
     }
 }
 #[cfg(all(not(kani), feature = "native"))]
+fn strict_ok(pk: &[u8; 32], msg: &[u8], sig: &[u8; 64]) -> bool {
+    match dalek_real::VerifyingKey::from_bytes(pk) {
+        Ok(k) => k.verify_strict(msg, &dalek_real::Signature::from_bytes(sig)).is_ok(),
+        Err(_) => false,
+    }
+}
+#[cfg(all(not(kani), feature = "native"))]
 fn point_ok(b: &[u8; 32]) -> bool {
     dalek_real::VerifyingKey::from_bytes(b).is_ok()
 }
@@ -290,6 +325,10 @@ fn fresh_sig(_seed: &[u8; 32], _msg: &[u8]) -> [u8; 64] {
 }
 #[cfg(all(not(kani), not(feature = "native")))]
 fn fresh_verdict(_pk: &[u8; 32], _msg: &[u8], _sig: &[u8; 64]) -> bool {
+    panic!("dalek-model built without kani and without feature native")
+}
+#[cfg(all(not(kani), not(feature = "native")))]
+fn strict_ok(_pk: &[u8; 32], _msg: &[u8], _sig: &[u8; 64]) -> bool {
     panic!("dalek-model built without kani and without feature native")
 }
 #[cfg(all(not(kani), not(feature = "native")))]
@@ -380,6 +419,16 @@ impl VerifyingKey {
     }
     pub fn as_bytes(&self) -> &[u8; 32] {
         &self.0
+    }
+    /// strict verification: the plain Ed25519 verdict (recorded like `verify`) and, in addition,
+    /// rejection of small-order keys and R components
+    pub fn verify_strict(&self, msg: &[u8], signature: &Signature) -> Result<(), SignatureError> {
+        let plain = uf_verify(&self.0, msg, &signature.0);
+        if plain && strict_ok(&self.0, msg, &signature.0) {
+            Ok(())
+        } else {
+            Err(SignatureError)
+        }
     }
     pub fn to_bytes(&self) -> [u8; 32] {
         self.0
